@@ -623,6 +623,86 @@ def run_polycoll(c):
     return ck.result()
 
 
+# ------------------------------------------------------------------------------------------- a non-convex polyhedron
+@st.composite
+def lblock_case(draw, tier="quick"):
+    return {"dims": [draw(st.integers(1, 2)), draw(st.integers(1, 2)), draw(st.integers(1, 2)), draw(st.integers(1, 3)), draw(st.integers(1, 3))], "frame": [draw(C.ints(3)) for _ in range(9)],
+            "p": [draw(st.integers(-2, 12)) for _ in range(3)], "q": [draw(st.integers(-2, 12)) for _ in range(3)], "other": draw(st.sampled_from(["line", "line", "segment"])), "swap": draw(st.booleans())}
+
+
+def lblock_labels(c):
+    try:
+        A2, B1, H, da, db = [int(x) for x in c["dims"]]
+        P0 = [Fraction(x, 4) for x in c["p"]]
+        dv = [Fraction(b, 4) - a for a, b in zip(P0, c["q"])]
+        hits = []
+        for axis, val, (r1, r2), _ in Z.l_block(A2 + da, A2, B1, B1 + db, H):
+            if dv[axis] == 0:
+                if P0[axis] == val:
+                    return [c["other"]]
+                continue
+            t = (val - P0[axis]) / dv[axis]
+            if c["other"] == "segment" and not 0 <= t <= 1:
+                continue
+            pt = [a + t * b for a, b in zip(P0, dv)]
+            oa = [k for k in range(3) if k != axis]
+            if r1[0] <= pt[oa[0]] <= r1[1] and r2[0] <= pt[oa[1]] <= r2[1]:
+                hits.append(pt)
+        n = len(dedupe(hits))
+        return [c["other"], f"{n}-common-points"] + ([">=3-common-points"] if n >= 3 else [])
+    except Exception:  # noqa: BLE001
+        return [c["other"]]
+
+
+def run_lblock(c):
+    """an L-shaped block (ten rectangles, non-convex) under an integer affine frame, cut by the line / segment through two quarter-lattice
+    points: a line may enter and leave such a solid twice - all common points with the faces are returned, each once"""
+    from geometer.shapes import Polyhedron
+
+    set_endpoint_scales({})
+    A2, B1, H, da, db = [int(x) for x in c["dims"]]
+    A, B = A2 + da, B1 + db
+    o = np.array(c["frame"][0:3], float)
+    u, w0 = np.array(c["frame"][3:6], float), np.array(c["frame"][6:9], float)
+    x3 = np.cross(u, w0)
+    if not np.any(x3):
+        raise Skip("degenerate frame")
+    M = np.stack([u, w0, x3], axis=1)
+    loc = lambda p: o + M @ np.array([float(x) for x in p])  # noqa: E731
+    P0 = [Fraction(x, 4) for x in c["p"]]
+    P1 = [Fraction(x, 4) for x in c["q"]]
+    dv = [b - a for a, b in zip(P0, P1)]
+    if not any(dv):
+        raise Skip("degenerate")
+    faces = Z.l_block(A, A2, B1, B, H)
+    hits = []
+    for axis, val, (r1, r2), _ in faces:
+        if dv[axis] == 0:
+            if P0[axis] == val:
+                raise Skip("line inside a face plane")
+            continue
+        t = (val - P0[axis]) / dv[axis]
+        if c["other"] == "segment" and not 0 <= t <= 1:
+            continue
+        pt = [a + t * b for a, b in zip(P0, dv)]
+        oa = [k for k in range(3) if k != axis]
+        if r1[0] <= pt[oa[0]] <= r1[1] and r2[0] <= pt[oa[1]] <= r2[1]:
+            hits.append(pt)
+    exp = dedupe(hits)
+    poly = Polyhedron(*[Polygon(*[P(loc(p)) for p in f[3]]) for f in faces])
+    other = Line(P(loc(P0)), P(loc(P1))) if c["other"] == "line" else SEG(loc(P0), loc(P1))
+    site = f"l-block:{c['other']}:{len(exp)}-common-points"
+    ck = Checker()
+    if c["swap"] and c["other"] == "segment":
+        r, f = call(site + ":swapped", other.intersect, poly)
+    else:
+        r, f = call(site, poly.intersect, other)
+    if f:
+        return [f]
+    compare(ck, list(r), [loc(e) for e in exp], site, 1e-6)
+    return ck.result()
+
+
 LAWS = [
     Law("segments", lambda tier: seg_case(tier), run_seg, lambda c: c["mode"] != "generic" or c["skew"], lambda c: [c["what"], c["mode"]], {"quick": 2500, "thorough": 40000},
         "segment.intersect(segment|line|plane) in 2D/3D incl. endpoint contact, collinear, parallel, skew, collections", shard=300),
@@ -634,6 +714,8 @@ LAWS = [
         mandatory=("mixed-parallel-and-piercing", "member-in-the-plane")),
     Law("cuboids", lambda tier: cub_case(tier), run_cub, lambda c: c["mode"] != "generic", lambda c: [c["other"], c["mode"]] + (["derived-from-a-queried-object"] if c.get("derive") else []) + (["lattice-cube-after-a-parallel-line"] if c.get("axis") is not None else []), {"quick": 900, "thorough": 12000},
         "cuboid.intersect(line|segment) vs slab method: two face points, vertex/edge contact once, parallel, in a face plane, miss", shard=60),
+    Law("nonconvex_polyhedron", lambda tier: lblock_case(tier), run_lblock, lambda c: True, lblock_labels, {"quick": 1500, "thorough": 20000},
+        "L-shaped block of ten rectangles (non-convex) cut by lines / segments through quarter-lattice points: all common points with the faces, each once (up to four)", shard=100, mandatory=(">=3-common-points",)),
 ]
 
 
